@@ -503,4 +503,83 @@ Proof.
     try (apply finalize_aux in H; exact H).
 Qed.
 
+
+(* ------------------------------------------------------------------ the loop body after the sleep, factored:
+   which state, which input for the frame on top, and what is done with the frame's answer *)
+Definition as_state (s : st) (rest : list resp) : st :=
+  let s1 := set_resps s rest in
+  match exc_slot s1 with
+  | Some e => set_exc_slot (set_stashed s1 (Some e)) None
+  | None => s1
+  end.
+Definition as_input (s2 : st) (r : resp) : input :=
+  match stashed s2, r with
+  | Some e, _ => Throw e
+  | None, RExn e => Throw e
+  | None, RVal v => Send v
+  end.
+Definition is_throw (i : input) : bool := match i with Throw _ => true | _ => false end.
+Definition as_post (s2 : st) (thr : bool) (o : outcome (frame P)) (po : list obs) : st * ctl * list obs :=
+  match o with
+  | Yielded m f' => ((if thr then set_stashed (replace_top s2 f') None else replace_top s2 f'), CProcess m, po)
+  | Returned v =>
+      let s3 := pop_plan s2 in
+      match plans s3 with
+      | [] => (s3, CExit (XRet v), po)
+      | _ => ((if thr then set_stashed s3 (Some EStopIteration) else s3), CContinue false (RVal VNone), po)
+      end
+  | Raised e' =>
+      if is_Exception e' then
+        let s3 := pop_plan s2 in
+        match plans s3 with
+        | [] => (s3, CExit (XExn e'), po)
+        | _ => (set_stashed s3 (Some e'), CContinue false (RVal VNone), po)
+        end
+      else
+        match e' with
+        | ECancelled => (s2, CCancelled true, po)
+        | _ => (set_resps (replace_top s2 (FList [])) (RVal VNone :: resps s2), CExit (XExn e'), po)
+        end
+  end.
+
+Lemma dstep_aftersleep (s : st) r rest top tl :
+  resps s = r :: rest -> plans s = top :: tl ->
+  dstep s CAfterSleep =
+  let s2 := as_state s rest in
+  let i := as_input s2 r in
+  let '(o, po) := frame_resume presume top i in inl (as_post s2 (is_throw i) o po).
+Proof.
+  intros Hr Hp. cbn [RE_Small.dstep]. rewrite Hr, Hp. unfold as_state, as_input. cbv zeta.
+  destruct (exc_slot (set_resps s rest)); cbn [stashed set_exc_slot set_stashed set_resps upd].
+  - destruct (frame_resume presume top (Throw e)) as [o po]. destruct o; unfold as_post; cbn [is_throw]; cbv zeta; repeat bmg; reflexivity.
+  - destruct (stashed s) as [e|].
+    + destruct (frame_resume presume top (Throw e)) as [o po]. destruct o; unfold as_post; cbn [is_throw]; cbv zeta; repeat bmg; reflexivity.
+    + destruct r as [v|e].
+      * destruct (frame_resume presume top (Send v)) as [o po]. destruct o; unfold as_post; cbn [is_throw]; cbv zeta; repeat bmg; reflexivity.
+      * destruct (frame_resume presume top (Throw e)) as [o po]. destruct o; unfold as_post; cbn [is_throw]; cbv zeta; repeat bmg; reflexivity.
+Qed.
+
+Lemma dstep_aftersleep_bad (s : st) :
+  (resps s = [] \/ plans s = []) -> dstep s CAfterSleep = inl (s, CExit (XExn EOther), [OBad 2]).
+Proof. intros [H|H]; cbn [RE_Small.dstep]; rewrite H; [reflexivity | destruct (resps s); reflexivity]. Qed.
+
+Lemma as_state_fields (s : st) rest :
+  state (as_state s rest) = state s /\ pc (as_state s rest) = pc s /\ must_cancel (as_state s rest) = must_cancel s /\
+  permit (as_state s rest) = permit s /\ plans (as_state s rest) = plans s /\ resps (as_state s rest) = rest /\
+  cache (as_state s rest) = cache s /\ bundlers (as_state s rest) = bundlers s /\
+  stashed (as_state s rest) = match exc_slot s with Some e => Some e | None => stashed s end /\
+  exc_slot (as_state s rest) = None.
+Proof.
+  unfold as_state. cbv zeta. cbn [exc_slot set_resps upd]. destruct (exc_slot s) eqn:E; cbn; rewrite ?E; repeat split; reflexivity.
+Qed.
+
+Lemma finalize_pc (s : st) r pend s' o : finalize presume dev s r pend = (s', o) -> exists r', pc s' = PcDone r'.
+Proof.
+  unfold finalize.
+  destruct (stop_movables dev (set_pardon s true)) as [s2 o2].
+  match goal with |- context [fold_left ?f ?l ?a] => destruct (fold_left f l a) as [s3 o3] end.
+  unfold set_state. cbv zeta.
+  match goal with |- context [allowed ?a Idle] => destruct (allowed a Idle) end; intros H; invc H; eexists; reflexivity.
+Qed.
+
 End Shape.
